@@ -14,7 +14,9 @@ REPO = os.path.join(S, 'repo')
 CACHE = os.path.join(S, 'cache')
 def sh(*a, **k):
     return subprocess.run(*a, **k)
-sh(['rsync', '-a', '--exclude', 'target', '--exclude', '.git', '/repo/', REPO + '/'], check=True)
+PRISTINE = os.path.join(S, 'pristine')      # /repo HEAD-tracked + working-tree content at start; later edits of /repo do not leak in
+sh(['rsync', '-a', '--exclude', 'target', '--exclude', '.git', '/repo/', PRISTINE + '/'], check=True)
+sh(['rsync', '-a', PRISTINE + '/', REPO + '/'], check=True)
 env = dict(os.environ, PDB_REPO=REPO, PDB_CACHE=CACHE)
 claimed = [c['property_id'] for c in json.load(open(os.path.join(VERIF, 'MANIFEST.json')))['checks']]
 def run_checks(props):
@@ -26,7 +28,7 @@ def run_checks(props):
         out[p] = (r.returncode, keys, fatal, r.stdout[-600:] if fatal else '')
     return out
 def restore():
-    sh(['rsync', '-a', '--delete', '--exclude', 'target', '--exclude', '.git', '/repo/', REPO + '/'], check=True)
+    sh(['rsync', '-a', '--delete', PRISTINE + '/', REPO + '/'], check=True)
 fails = 0
 def report(name, ok, msg):
     global fails
